@@ -121,5 +121,5 @@ ReplayRecord ==
    variants |-> IF Accepted THEN Variants ELSE {}]
 
 Replay == Terminal => PrintT(<<"REPLAY", ToJson(ReplayRecord)>>)
-View == <<input, phase, added, mods, reg, start, todo, err, out>>
+View == StdView
 =============================================================================
